@@ -15,19 +15,23 @@ the start.  The real system only appends to its log; after any checkpoint the lo
 earlier records and start-up recovery replays the whole log on the data file.
 
 * `ReplayCkpt1`: **`crash_recovery_ckpt`** (`_gen`): the log of the database the statements start from
-  may hold any records that are `Applied` on the store and that the LSN counter has passed; the whole
-  log - old records, then the records of the statements - is replayed.
+  may hold any records that are `Applied` on the store and that the counters have passed (no LSN
+  beyond the LSN counter, no INSERT key beyond the row-id counter - recovery raises the row-id counter
+  to the key of every INSERT record, redone or skipped); the whole log - old records, then the records
+  of the statements - is replayed.
 * `ReplayCkpt2`: what a statement does to the LSNs of the pages of a tree (levels model):
   `insertAppend_page_kept`, `insertAppend_old_root` (the old root page carries the LSN of the insert
   that moved the root).
 * `ReplayCkpt3`: `AppliedC` (applied, read off the catalog description), **`live_run_applied`**: along a
-  live run every record of the log is applied on the live store, root moves included.
+  live run every record of the log is applied on the live store, root moves included;
+  **`live_run_keys`**: and no INSERT record carries a key beyond the row-id counter.
 * `ReplayCkpt4`: `live_run_pages` (the clean pages at the end of a run are pages it started with),
   the catalog description after a flush (`AppliedC.clean`, …).
 * `ReplayCkpt5`, `ReplayCkpt6`: frame facts - every operation keeps the cache well filed
   (`specRun_memFiled`, `replayAll_memFiled`) and only the flush writes the data file (`specRun_disk`,
   `replayAll_disk`, `replayAll_lsn`).
-* `ReplayCkpt7`: `flush_ckpt`, the checkpoint invariant **`Ckpt`**, `ckpt_of_flushed`, `spec_run_ckpt`.
+* `ReplayCkpt7`: `flush_ckpt`, the checkpoint invariant **`Ckpt`**, `ckpt_of_flushed`, `spec_run_ckpt`,
+  `spec_run_keys`.
 * `ReplayCkpt8`: **`Ckpt.flush_round`**, **`Ckpt.replay_reopened`** (the whole log replayed on the
   re-opened data file), `Ckpt.recoverPre`, **`Ckpt.recover_round`** (about `Engine.recover`), `Rounds`,
   **`rounds_ckpt`**, `rounds_recover`.
